@@ -456,6 +456,36 @@ def _with_block_id(x, block_id=None):
 _with_block_id.__symx_kernel__ = True
 
 
+def plus_one(b):
+    return b + 1
+
+
+def times_three(b):
+    return b * 3
+
+
+plus_one.__symx_kernel__ = True
+times_three.__symx_kernel__ = True
+
+
+def p_map(w, p, f):
+    """map_blocks(f, x) with a plain element-wise user function: an opaque blockwise node the optimizer cannot see through"""
+    coll = w.fn(NC, "new_collection")(p.node)
+    nd = len(coll.chunks)
+    out = w.fn("dask_array._map_blocks", "map_blocks")(f, coll, dtype=np.dtype("f8"), meta=np.empty((0,) * nd))
+    return Prog(out.expr, f(p.ref), p.dsk)
+
+
+def _shared_through_two_permutations(w, E):
+    """a shared opaque node reached along two paths with different axis permutations (cube with the same chunks on every axis)"""
+    c = source(w, E, "c", (2,)).node.chunks[0]
+    x = source(w, E, "x", (2, 2, 2), chunks=[c, c, c])
+    y = p_map(w, x, plus_one)
+    p1 = p_transpose(w, p_map(w, p_transpose(w, y, (1, 2, 0)), times_three), (0, 2, 1))
+    p2 = p_transpose(w, y, (2, 1, 0))
+    return p_elemwise(w, operator.add, p1, p2)
+
+
 def p_map_blocks(w, E, p, how="info"):
     """map_blocks(f, x) with f reading block_info (or block_id); the reference is written from the layout advertised *now*"""
     coll = w.fn(NC, "new_collection")(p.node)
@@ -589,6 +619,7 @@ def programs(tier):
     reg("diag(x2x2, same chunks on both axes)", lambda w, E: p_diag(w, E, _square(w, E, 2)), 3)
     reg("diag(x[3+5,5+3])", lambda w, E: p_diag(w, E, source(w, E, "x", (2, 2), chunks=[(3, 5), (5, 3)])), 2)
     reg("diag(x[2+2,1+3],k=1)", lambda w, E: p_diag(w, E, source(w, E, "x", (2, 2), chunks=[(2, 2), (1, 3)]), 1), 2)
+    reg("T(map(T(y,(1,2,0))),(0,2,1))+T(y,(2,1,0)), y=map(x2x2x2) shared", lambda w, E: _shared_through_two_permutations(w, E), 8)
     # map_blocks with block_info / block_id, with rewrites above and below the call
     reg("map_blocks(f_info,x3)", lambda w, E: p_map_blocks(w, E, source(w, E, "x", (3,))), 3)
     reg("map_blocks(f_info,x2x2)", lambda w, E: p_map_blocks(w, E, source(w, E, "x", (2, 2))), 3)
